@@ -224,7 +224,7 @@ func (e *Engine) load(patterns []string, tags string, overlay map[string][]byte)
 	e.fset = prog.Fset
 	for _, sp := range prog.AllPackages() {
 		e.spkgs[sp.Pkg.Path()] = sp
-		if _, dup := e.byName[sp.Pkg.Name()]; !dup || strings.Contains(sp.Pkg.Path(), "litestream") || strings.Contains(sp.Pkg.Path(), "superfly/ltx") {
+		if _, dup := e.byName[sp.Pkg.Name()]; !dup || strings.Contains(sp.Pkg.Path(), "litestream") || strings.Contains(sp.Pkg.Path(), "superfly/ltx") || sp.Pkg.Path() == sp.Pkg.Name() {
 			e.byName[sp.Pkg.Name()] = sp.Pkg
 		}
 	}
